@@ -108,10 +108,9 @@ func AfterFunc(d Duration, f func()) *Timer {
 	return &Timer{C: v.C, v: v, f: f}
 }
 
-// Sleep advances the virtual clock by d (a scheduling point under a scheduler).
+// Sleep parks the caller until the virtual clock has moved on by d (vrt.Sleep).
 func Sleep(d Duration) {
-	note("time.Sleep (modelled as a clock advance)")
-	vrt.Advance(d)
+	vrt.Sleep(d)
 }
 
 func note(what string) {
